@@ -216,7 +216,6 @@ pub open spec fn total_len(chunks: Seq<Seq<u8>>) -> int decreases chunks.len() {
         ax.log == old(ax).log,
         ax.written == flat(consumed), consumed + ax.body =~= old(ax).body,
         bytes_written == total_len(consumed), total_len(old(ax).body) < usize::MAX,
-    ensures ax.body.len() == 0,
 //@@ before_stmt?: bytes_written += data.len()
     proof {
         let c0 = consumed;
@@ -227,6 +226,7 @@ pub open spec fn total_len(chunks: Seq<Seq<u8>>) -> int decreases chunks.len() {
     }
 //@@ header
 #[verifier::exec_allows_no_decreases_clause]
+#[verifier::loop_isolation(false)]
 fn append_body_to_hash(store: &Store, body: &mut Incoming, Tracked(ax): Tracked<&mut Ax>) -> (r: Result<Option<Integrity>, Error>)
     requires total_len(old(ax).body) < usize::MAX,
     ensures
@@ -279,7 +279,6 @@ fn append_builds_frame(store: &Store, topic: String, context_id: Scru128Id, hash
         ax.log == old(ax).log,
         ax.written == flat(consumed), consumed + ax.body =~= old(ax).body,
         bytes_written == total_len(consumed), total_len(old(ax).body) < usize::MAX,
-    ensures ax.body.len() == 0,
 //@@ before_stmt?: bytes_written += data.len()
     proof {
         let c0 = consumed;
@@ -292,6 +291,7 @@ fn append_builds_frame(store: &Store, topic: String, context_id: Scru128Id, hash
     proof { assert(consumed =~= old(ax).body); lemma_flat_len(old(ax).body); }
 //@@ header
 #[verifier::exec_allows_no_decreases_clause]
+#[verifier::loop_isolation(false)]
 fn cas_post_body_to_hash(store: &Store, body: &mut Incoming, Tracked(ax): Tracked<&mut Ax>) -> (r: HTTPResult)
     requires total_len(old(ax).body) < usize::MAX,
     ensures
